@@ -166,7 +166,7 @@ def fixTrailer (h : HeaderMap) (chunked : Bool) : Option (List Bytes × HeaderMa
 
 /-! ### the framing decision -/
 
-inductive Framing where
+inductive RespFraming where
   | none                 -- `NoBody`
   | length (n : Nat)     -- `io.LimitReader(r, n)`, n > 0
   | chunked              -- `internal.NewChunkedReader(r)` + trailer
@@ -181,7 +181,7 @@ structure Msg where
   teChunked : Bool        -- `resp.TransferEncoding == ["chunked"]`
   close : Bool            -- `resp.Close`
   trailerDecl : List Bytes  -- keys of `resp.Trailer` before the body is read
-  framing : Framing
+  framing : RespFraming
 deriving Repr, BEq, DecidableEq
 
 /-- `readTransfer` for a response to a request whose method is HEAD (`isHead`) or not. -/
@@ -208,13 +208,13 @@ def readTransfer (isHead : Bool) (sl : StatusLine) (h0 : HeaderMap) : Option Msg
         | none => none
         | some (tr, h4) =>
           let close := close0 || (realLength = -1 && !chunked && bodyAllowedForStatus sl.code)
-          let framing : Framing :=
+          let framing : RespFraming :=
             if chunked then
-              (if isHead || !bodyAllowedForStatus sl.code then Framing.none else Framing.chunked)
-            else if realLength = 0 then Framing.none
-            else if realLength > 0 then Framing.length realLength.toNat
-            else if close then Framing.untilClose
-            else Framing.none
+              (if isHead || !bodyAllowedForStatus sl.code then RespFraming.none else RespFraming.chunked)
+            else if realLength = 0 then RespFraming.none
+            else if realLength > 0 then RespFraming.length realLength.toNat
+            else if close then RespFraming.untilClose
+            else RespFraming.none
           some ⟨sl, h4, cl, chunked, close, tr, framing⟩
 
 end Req.H1
